@@ -298,7 +298,7 @@ Proof.
   - split; [|congruence]. apply (int_or_str oh 100%Z); [exact Noh|congruence].
   - split; congruence.
   - assert (X : int_of_text ve = Some (h1_version a)) by (apply (int_or_str ve 102%Z); assumption).
-    split; [exact X|]. pose proof (decimal_text_nonneg ve _ Nve Cve X). lia.
+    split; [exact X|]. pose proof (decimal_text_nonneg ve _ Nve Cve X) as Y. clear - Y Ive. lia.
   - split; [|exact Ese]. rewrite <- Ese. apply (mem_within _ _ _ Ise G4).
   - split; [|exact Een]. rewrite <- Een. apply (mem_within _ _ _ Ien G5).
   - split; [|exact Ech]. rewrite <- Ech. apply (mem_within _ _ _ Ich G6).
@@ -381,6 +381,11 @@ Proof.
     + destruct t; [vm_compute in P; discriminate P|]. unfold len in Tr. cbn [List.length] in Tr. destruct (N.of_nat _ =? 0) eqn:E; [lia|discriminate Tr].
 Qed.
 
+Lemma major1 z : (z / 100 =? 1)%Z = true <-> (100 <= z < 200)%Z.
+Proof. rewrite Z.eqb_eq. split; intro H; Z.to_euclidean_division_equations; lia. Qed.
+Lemma major2 z : (z / 100 =? 2)%Z = true <-> (200 <= z < 300)%Z.
+Proof. rewrite Z.eqb_eq. split; intro H; Z.to_euclidean_division_equations; lia. Qed.
+
 Theorem make_header_kind_l v se ol ne :
   match make_header v se ol ne with
   | OK (H1 a) => exists z, py_int v = Some z /\ (100 <= z < 200)%Z /\ h1_version a = z /\ h1_ofxheader a = 100%Z
@@ -396,8 +401,8 @@ Proof.
   destruct (z / 100 =? 1)%Z eqn:M1.
   - destruct (init_v1 v None None se None None None ol ne) as [a|[|]] eqn:E; cbn [rmap] in *; [|exact I|contradiction].
     destruct (init_v1_sound _ _ _ _ _ _ _ _ _ _ E) as [[Ioh Eoh] _ [Eve Ive] _ _ _ _ _ _].
-    assert (R : (100 <= z < 200)%Z) by (apply Z.eqb_eq in M1; Z.to_euclidean_division_equations; lia).
-    exists z. split; [reflexivity|]. split; [exact R|]. split; [apply (int_or_version v 102%Z); [exact Eve|exact P|lia]|].
+    assert (R : (100 <= z < 200)%Z) by (apply major1; exact M1).
+    exists z. split; [reflexivity|]. split; [exact R|]. split; [apply (int_or_version v 102%Z); [exact Eve|exact P|clear - R; lia]|].
     cbn [int_or] in Eoh. injection Eoh as Eoh. split; [congruence|].
     cbn [str_hdr]. unfold str_v1. rewrite <- Eoh. eexists. reflexivity.
   - destruct (z / 100 =? 2)%Z eqn:M2; [|exact I].
@@ -419,11 +424,11 @@ Proof.
   split; [|split].
   - intro P. unfold make_header. rewrite P. reflexivity.
   - intros z P R. unfold make_header. rewrite P.
-    destruct (z / 100 =? 1)%Z eqn:M1; [apply Z.eqb_eq in M1; exfalso; apply R; Z.to_euclidean_division_equations; lia|].
-    destruct (z / 100 =? 2)%Z eqn:M2; [apply Z.eqb_eq in M2; exfalso; apply R; Z.to_euclidean_division_equations; lia|]. reflexivity.
+    destruct (z / 100 =? 1)%Z eqn:M1; [apply major1 in M1; exfalso; apply R; clear - M1; lia|].
+    destruct (z / 100 =? 2)%Z eqn:M2; [apply major2 in M2; exfalso; apply R; clear - M2; lia|]. reflexivity.
   - intros z P R NI. pose proof (make_header_kind_l v se ol ne) as K.
     destruct (make_header v se ol ne) as [[a|a]|[|]]; [| |reflexivity|contradiction].
-    + destruct K as [z' [P' [R' _]]]. rewrite P in P'. injection P' as <-. lia.
+    + destruct K as [z' [P' [R' _]]]. rewrite P in P'. injection P' as <-. clear - R R'. lia.
     + destruct K as [z' [P' [I' _]]]. rewrite P in P'. injection P' as <-. contradiction.
 Qed.
 
@@ -435,16 +440,16 @@ Theorem make_header_accepts_v1 v z se ol ne : py_int v = Some z -> (100 <= z < 2
                                       (or_text ol (T "NONE")) (or_text ne (T "NONE")))).
 Proof.
   intros P R Vse Vol Vne. unfold make_header. rewrite P.
-  assert (M : (z / 100 =? 1)%Z = true) by (apply Z.eqb_eq; Z.to_euclidean_division_equations; lia). rewrite M.
+  assert (M : (z / 100 =? 1)%Z = true) by (apply major1; exact R). rewrite M.
   unfold init_v1. cbn [int_or bind].
   change (oneof_int v1_ofxheader_valid 100) with (OK 100%Z : result Z). cbn [bind].
   change (oneof_text v1_data_valid (or_text None (T "OFXSGML"))) with (OK (T "OFXSGML") : result text). cbn [bind].
   assert (Tr : truthy v = true).
-  { destruct v as [z'|t]; cbn [truthy py_int] in *; [injection P as ->; destruct (z =? 0)%Z eqn:E; [lia|reflexivity]|].
-    destruct t; [vm_compute in P; discriminate P|]. unfold len. cbn [List.length]. destruct (N.of_nat _ =? 0) eqn:E; [lia|reflexivity]. }
+  { destruct v as [z'|t]; cbn [truthy py_int] in *; [injection P as ->; destruct (z =? 0)%Z eqn:E; [clear - E R; lia|reflexivity]|].
+    destruct t; [vm_compute in P; discriminate P|]. unfold len. cbn [List.length]. destruct (N.of_nat _ =? 0) eqn:E; [clear - E; lia|reflexivity]. }
   rewrite Tr, P. cbn [bind].
   assert (IC : integer_conv v1_version_len z = OK z).
-  { unfold integer_conv, v1_version_len. change (Z.of_N (10 ^ 3)) with 1000%Z. destruct (1000 <=? Z.abs z)%Z eqn:E; [lia|reflexivity]. }
+  { unfold integer_conv, v1_version_len. change (Z.of_N (10 ^ 3)) with 1000%Z. destruct (1000 <=? Z.abs z)%Z eqn:E; [clear - E R; lia|reflexivity]. }
   rewrite IC. cbn [bind].
   assert (S : oneof_text v1_security_valid (or_text se (T "NONE")) = OK (or_text se (T "NONE"))).
   { destruct se as [[|c r]|]; try (vm_compute; reflexivity). cbn [opt_valid] in Vse. cbn [or_text]. apply sec1_ok in Vse. tauto. }
